@@ -33,6 +33,9 @@ type shapeReq struct {
 	param int    // -1 = receiver
 	path  string // suffix below the parameter, "" or ".Cells.[0]"
 	need  int
+	// listOK: the function itself excluded the empty list (a dominating !IsNil()): a caller that
+	// establishes the value is a list (LSExpr) has established one cell
+	listOK bool
 }
 
 type shapeSite struct {
@@ -541,6 +544,11 @@ func (a *ownAnalysis) nonNilList(fc *FCFG, n ast.Node, stack []ast.Node, key str
 	if s := facts[key]; !(len(s) == 1 && s["LSExpr"]) {
 		return false
 	}
+	return a.nilExcluded(fc, n, key)
+}
+
+// nilExcluded: a dominating edge carries the false side of <key>.IsNil().
+func (a *ownAnalysis) nilExcluded(fc *FCFG, n ast.Node, key string) bool {
 	isNilM := a.c.LookupMethod("lisp.LVal.IsNil")
 	if isNilM == nil {
 		return false
@@ -798,11 +806,16 @@ func (c *Ctx) shapeAnalysis() []shapeSite {
 	addReq := func(fn *types.Func, r shapeReq) bool {
 		for i, cur := range reqs[fn] {
 			if cur.param == r.param && cur.path == r.path {
+				changed := false
 				if r.need > cur.need {
 					reqs[fn][i].need = r.need
-					return true
+					changed = true
 				}
-				return false
+				if cur.listOK && !r.listOK {
+					reqs[fn][i].listOK = false
+					changed = true
+				}
+				return changed
 			}
 		}
 		reqs[fn] = append(reqs[fn], r)
@@ -888,7 +901,7 @@ func (c *Ctx) shapeAnalysis() []shapeSite {
 				return true
 			})
 			// justify decides one requirement `len((base+suffix).Cells) >= need` at node n
-			justify := func(n ast.Node, st []ast.Node, base ast.Expr, suffix string, need int, what string) shapeSite {
+			justify := func(n ast.Node, st []ast.Node, base ast.Expr, suffix string, need int, what string, listOK bool) shapeSite {
 				site := shapeSite{u: u, node: n, what: what, nontriv: true}
 				lit := innermostBody(u.Decl, n)
 				fc := c.cfgOf(u, lit.Lit)
@@ -896,6 +909,12 @@ func (c *Ctx) shapeAnalysis() []shapeSite {
 				fullKey := key
 				if key != "" {
 					fullKey = key + suffix
+				}
+				// the same value named as an ELEMENT of the sequence it was taken from (range variable, result
+				// of a selecting helper): facts a for-all loop established for every element apply to it
+				elemKey := ""
+				if ek := a.elementKey(base); ek != "" {
+					elemKey = ek + suffix
 				}
 				// the argument list of a registered builtin, handed on whole to a helper
 				if suffix == "" {
@@ -913,20 +932,6 @@ func (c *Ctx) shapeAnalysis() []shapeSite {
 						return site
 					}
 				}
-				// len
-				if fullKey != "" {
-					if lb := a.lenLowerBoundKey(fc, n, st, fullKey); lb >= need {
-						site.verdict, site.detail = Proved, fmt.Sprintf("dominated by a test implying len(Cells) >= %d", lb)
-						return site
-					}
-					if lit.Lit != nil {
-						if lb := a.lenLowerBoundKey(c.cfgOf(u, nil), lit.Lit, st, fullKey); lb >= need {
-							site.verdict, site.detail = Proved, fmt.Sprintf("the enclosing function established len(Cells) >= %d before creating the closure", lb)
-							return site
-						}
-					}
-				}
-				// type invariant
 				typeOK := func(s typeSet) (bool, string) {
 					if len(s) == 0 {
 						return false, ""
@@ -938,17 +943,39 @@ func (c *Ctx) shapeAnalysis() []shapeSite {
 					}
 					return true, s.String()
 				}
+				byFacts := func(fullKey string) bool {
+					if listOK && fullKey != "" && need == 1 {
+						facts := a.typeFactsAt(fc, n, st)
+						if s := facts[fullKey]; len(s) == 1 && s["LSExpr"] {
+							site.verdict, site.detail = Proved, "the value is a list here (dominating type test) and the callee itself excludes the empty list before it reads the first cell"
+							return true
+						}
+					}
+				// len
+				if fullKey != "" {
+					if lb := a.lenLowerBoundKey(fc, n, st, fullKey); lb >= need {
+						site.verdict, site.detail = Proved, fmt.Sprintf("dominated by a test implying len(Cells) >= %d", lb)
+						return true
+					}
+					if lit.Lit != nil {
+						if lb := a.lenLowerBoundKey(c.cfgOf(u, nil), lit.Lit, st, fullKey); lb >= need {
+							site.verdict, site.detail = Proved, fmt.Sprintf("the enclosing function established len(Cells) >= %d before creating the closure", lb)
+							return true
+						}
+					}
+				}
+				// type invariant
 				if fullKey != "" {
 					facts := a.typeFactsAt(fc, n, st)
 					if ok, desc := typeOK(facts[fullKey]); ok {
 						site.verdict, site.detail = Proved, "dominating tests leave only "+desc+", whose constructors all give at least "+fmt.Sprint(need)+" cells"
-						return site
+						return true
 					}
 					if lit.Lit != nil {
 						ofacts := a.typeFactsAt(c.cfgOf(u, nil), lit.Lit, st)
 						if ok, desc := typeOK(ofacts[fullKey]); ok {
 							site.verdict, site.detail = Proved, "the enclosing function established " + desc + " before creating the closure"
-							return site
+							return true
 						}
 					}
 				}
@@ -956,7 +983,7 @@ func (c *Ctx) shapeAnalysis() []shapeSite {
 				if fullKey != "" && need == 1 {
 					if a.nonNilList(fc, n, st, fullKey) {
 						site.verdict, site.detail = Proved, "the value is a list (dominating type test) and a dominating IsNil() test excluded the empty one"
-						return site
+						return true
 					}
 				}
 				// the dimension list of an array: every Array(...) call of the module passes nil (one dimension
@@ -967,9 +994,17 @@ func (c *Ctx) shapeAnalysis() []shapeSite {
 					if s := facts[parent]; len(s) == 1 && s["LArray"] {
 						if m := c.arrayDimsMin(); m >= need {
 							site.verdict, site.detail = Proved, fmt.Sprintf("dimension list of an array: every Array(...) call in the module gives at least %d dimension(s)", m)
-							return site
+							return true
 						}
 					}
+				}
+					return false
+				}
+				if byFacts(fullKey) {
+					return site
+				}
+				if elemKey != "" && elemKey != fullKey && byFacts(elemKey) {
+					return site
 				}
 				if suffix == "" {
 					if s := a.exprTypes(base, 0); s != nil {
@@ -988,14 +1023,25 @@ func (c *Ctx) shapeAnalysis() []shapeSite {
 				}
 				// lift
 				if lit.Lit == nil {
-					if pth, okp := PathOfResolved(info, u.Decl.Body, base); okp && pth.Root != nil {
+					liftBase := base
+					extra := ""
+					if seq := a.rangedSeqOf(base); seq != nil {
+						// the value variable of `for _, x := range P.Cells`: an element of P's cells
+						liftBase, extra = seq, ".[]"
+					}
+					if pth, okp := PathOfResolved(info, u.Decl.Body, liftBase); okp && pth.Root != nil {
 						sfx := ""
 						if len(pth.Elems) > 0 {
 							sfx = "." + strings.Join(pth.Elems, ".")
 						}
+						sfx += extra
 						idx := paramIndex(pth.Root)
 						if idx >= -1 && !reassigned[pth.Root] && !regArgs[pth.Root] && nCallers[u.Obj] > 0 && regFn[u.Obj] == "" && !recursive[u.Obj] && strings.Count(sfx+suffix, "Cells") <= 2 {
-							if addReq(u.Obj, shapeReq{idx, sfx + suffix, need}) {
+							nilOut := listOK
+							if !nilOut && need == 1 && fullKey != "" && a.nilExcluded(fc, n, fullKey) {
+								nilOut = true
+							}
+							if addReq(u.Obj, shapeReq{idx, sfx + suffix, need, nilOut}) {
 								changed = true
 							}
 							site.verdict, site.lifted, site.nontriv = Proved, true, false
@@ -1057,7 +1103,7 @@ func (c *Ctx) shapeAnalysis() []shapeSite {
 						return true
 					}
 					// an assignment target X.Cells[k] = v is an index as well
-					sites = append(sites, justify(n, st(), se.X, "", need, what))
+					sites = append(sites, justify(n, st(), se.X, "", need, what, false))
 				case *ast.CallExpr:
 					callee := originOf(Callee(info, x))
 					if callee == nil || len(reqs[callee]) == 0 {
@@ -1079,7 +1125,7 @@ func (c *Ctx) shapeAnalysis() []shapeSite {
 						short := FuncName(callee)
 						short = short[strings.LastIndex(short, ".")+1:]
 						what := fmt.Sprintf("call %s with %s%s", short, exprShape(info, arg), strings.ReplaceAll(r.path, ".[", "["))
-						s := justify(n, st(), arg, r.path, r.need, what)
+						s := justify(n, st(), arg, r.path, r.need, what, r.listOK)
 						sites = append(sites, s)
 					}
 				}
@@ -1099,6 +1145,113 @@ func (c *Ctx) shapeAnalysis() []shapeSite {
 	})
 	c.memo["shapeSites"] = final
 	return final
+}
+
+// rangedSeqOf: e is the value variable of exactly one `for _, e := range S` of this function; S is returned.
+func (a *ownAnalysis) rangedSeqOf(e ast.Expr) ast.Expr {
+	id, ok := ast.Unparen(e).(*ast.Ident)
+	if !ok {
+		return nil
+	}
+	obj := a.info.Uses[id]
+	if obj == nil {
+		return nil
+	}
+	var seq ast.Expr
+	n := 0
+	ast.Inspect(a.u.Decl.Body, func(m ast.Node) bool {
+		if rs, ok := m.(*ast.RangeStmt); ok && rs.Value != nil && identObj(a.info, rs.Value) == obj {
+			seq = rs.X
+			n++
+		}
+		return true
+	})
+	if n != 1 {
+		return nil
+	}
+	return seq
+}
+
+// elementKey: the access-path key of e when e is known to be an ELEMENT of a sequence: the value variable
+// of a range over S (key(S)+".[]"), or a local defined once by a call of a selecting helper of the module
+// — a function every non-nil return of which hands back the value variable of a range over <param>.Cells —
+// in which case e is an element of the cells of the corresponding argument.
+func (a *ownAnalysis) elementKey(e ast.Expr) string {
+	if seq := a.rangedSeqOf(e); seq != nil {
+		if k := a.resolvedKey(seq, 0); k != "" {
+			return k + ".[]"
+		}
+		return ""
+	}
+	d := soleDef(a.info, a.u.Decl.Body, e)
+	if d == nil {
+		return ""
+	}
+	ce, ok := ast.Unparen(d).(*ast.CallExpr)
+	if !ok {
+		return ""
+	}
+	h := originOf(Callee(a.info, ce))
+	if h == nil {
+		return ""
+	}
+	hd := a.c.declOf[h]
+	if hd == nil || hd.Body == nil {
+		return ""
+	}
+	hu := FuncUnit{h, hd, a.c.pkgOf[hd]}
+	ha := newOwnAnalysis(a.c, hu)
+	hps := paramObjs(hu)
+	pidx := -1
+	good := true
+	nret := 0
+	ast.Inspect(hd.Body, func(m ast.Node) bool {
+		if _, isLit := m.(*ast.FuncLit); isLit {
+			return false
+		}
+		rs, ok := m.(*ast.ReturnStmt)
+		if !ok {
+			return true
+		}
+		if len(rs.Results) != 1 {
+			good = false
+			return true
+		}
+		if isNilIdent(ha.info, rs.Results[0]) {
+			return true
+		}
+		nret++
+		seq := ha.rangedSeqOf(rs.Results[0])
+		if seq == nil {
+			good = false
+			return true
+		}
+		se, ok := ast.Unparen(seq).(*ast.SelectorExpr)
+		if !ok || se.Sel.Name != "Cells" {
+			good = false
+			return true
+		}
+		po := identObj(ha.info, se.X)
+		k := -1
+		for i, p := range hps {
+			if p == po {
+				k = i
+			}
+		}
+		if k < 0 || (pidx >= 0 && pidx != k) {
+			good = false
+			return true
+		}
+		pidx = k
+		return true
+	})
+	if !good || nret == 0 || pidx < 0 || pidx >= len(ce.Args) {
+		return ""
+	}
+	if k := a.resolvedKey(ce.Args[pidx], 0); k != "" {
+		return k + ".Cells.[]"
+	}
+	return ""
 }
 
 // isPairElement: e is the range value (or an index) over X.Cells where X is the result of a
